@@ -320,6 +320,19 @@ def drop_finest(m):
     return c
 
 
+def drop_last_box(m, lv):
+    """copy of m whose level lv lacks its last box (a mesh that is a strict prefix of m's)"""
+    c = m.copy()
+    c.boxes = [list(b) for b in m.boxes]
+    c.data = [list(d) for d in m.data]
+    c.boxes[lv] = c.boxes[lv][:-1]
+    c.data[lv] = c.data[lv][:-1]
+    nb = len(c.boxes[lv])
+    c.layout[lv] = {"file_of": m.layout[lv]["file_of"][:nb],
+                    "write_order": [i for i in m.layout[lv]["write_order"] if i < nb]}
+    return c
+
+
 def permute_boxes(m, seed):
     """copy of m with another box order at every level (same boxes, same data)"""
     rng = random.Random(seed)
@@ -354,6 +367,12 @@ def _payload(m, lv, bi, b, payload, nprng):
             for f in range(shp[-1]):      # no all-NaN box component (no canonical min/max row)
                 if np.isnan(arr[..., f]).all():
                     arr[..., f] = keep[..., f]
+        return arr
+    if payload == "nearconst":
+        # values that vary only in their last digits inside a box (ambient temperature, trace species):
+        # anything that decides "uniform" with a tolerance instead of equality flattens them
+        base = nprng.choice([298.0, 1e-12, -3.5, 1.0e5], size=shp[-1])
+        arr = base * (1.0 + 1e-7 * (nprng.random(shp) - 0.5))
         return arr
     if payload == "positive":
         arr = (nprng.random(shp) + 0.25) * 10.0 ** int(nprng.integers(-3, 4))     # several decades across boxes
@@ -396,6 +415,8 @@ def _payload(m, lv, bi, b, payload, nprng):
                     if k != d:
                         t = t + (0.37 + 0.11 * k) * idx[k]
                 arr[..., f] = t
+            elif n == "near":
+                arr[..., f] = 298.0 * (1.0 + 1e-7 * (nprng.random(b.shape) - 0.5))
             elif n == "lin":
                 arr[..., f] = sum(m.coef[d][1] * grids[d] for d in range(nd)) + m.coef[0][0]
         return arr
